@@ -70,6 +70,8 @@ def main(argv):
             obs = [o for o in obs if o.id == want.get("obligation")]
             for o in obs:
                 print(f"REPLAY {o.id} [{o.rule}] {o.where}: {o.status.upper()} {o.detail}")
+            if not obs:
+                print(f"REPLAY {want.get('obligation')}: this obligation does not arise on the current tree (the construct it was about is gone)")
             return 1 if any(o.status == "violation" for o in obs) else 0
         extra = dict(getattr(ctx, "extra", {}) or {})
         if tier == "thorough" and hasattr(mod, "thorough"):
